@@ -351,7 +351,7 @@ Proof.
       inv_some; apply Hfr; frame3.
   - (* KStateSet: restore *)
     destruct (nget (drains st) (goid (e_by e))) as [d|] eqn:Hd; [|inv_some; apply Hfr; reflexivity].
-    destruct (d_cancel d); [|discriminate]. destruct (_ && _); [|discriminate].
+    destruct (d_cancel d); [|discriminate]. destruct (tstate_eqb _ _) eqn:Hnd; [discriminate|]. destruct (_ && _); [|discriminate].
     destruct (notify st d (e_t e)) as [cs|] eqn:Hn; [|discriminate]. inv_some.
     eapply Sh_end; [exact Hd|exact (notify_core _ _ _ _ Hn)|reflexivity].
   - (* KDrainBegin *)
@@ -878,7 +878,7 @@ Proof. unfold drain_done_req. destruct (_ && _); repeat split. Qed.
 Lemma tdrain_fwd p st0 e s' g d :
   step_gen p st0 e = Some s' -> nget (drains st0) g = Some d ->
   (exists d', nget (drains s') g = Some d' /\ dkeep e g d d') \/
-  (goid (e_by e) = g /\ d_cancel d <> None /\ exists o n, e_k e = KStateSet (d_t d) o n).
+  (goid (e_by e) = g /\ d_cancel d <> None /\ exists o n, e_k e = KStateSet (d_t d) o n /\ n <> TDraining).
 Proof.
   intros Hs Hd. revert Hs. unfold step_gen.
   destruct (e_t e <? clock st0); [discriminate|].
@@ -886,11 +886,11 @@ Proof.
   set (st := upd_clock st0 (e_t e)) in *. cbv zeta.
   assert (Hfr : forall s1, drains s1 = drains st -> (forall t o n, e_k e <> KStateSet t o n) ->
                            (exists d', nget (drains s1) g = Some d' /\ dkeep e g d d') \/
-                           (goid (e_by e) = g /\ d_cancel d <> None /\ exists o n, e_k e = KStateSet (d_t d) o n)).
+                           (goid (e_by e) = g /\ d_cancel d <> None /\ exists o n, e_k e = KStateSet (d_t d) o n /\ n <> TDraining)).
   { intros s1 E Hk. left. exists d. split; [rewrite E; exact Hd|]. apply dkeep_refl. intros _; exact Hk. }
   assert (Hown : forall c cm, own_step p st c cm e = Some s' -> (forall t o n, e_k e <> KStateSet t o n) ->
                               (exists d', nget (drains s') g = Some d' /\ dkeep e g d d') \/
-                              (goid (e_by e) = g /\ d_cancel d <> None /\ exists o n, e_k e = KStateSet (d_t d) o n)).
+                              (goid (e_by e) = g /\ d_cancel d <> None /\ exists o n, e_k e = KStateSet (d_t d) o n /\ n <> TDraining)).
   { intros c cm H Hk. destruct (own_step_frame _ _ _ _ _ _ H) as (_ & _ & F & _). exact (Hfr _ F Hk). }
   destruct (e_k e) eqn:Hk.
   all: try (destruct (e_by e) eqn:Hby;
@@ -928,11 +928,13 @@ Proof.
   - (* KStateSet *)
     destruct (Nat.eq_dec (goid (e_by e)) g) as [Eg|Ng].
     + rewrite Eg, Hd. destruct (d_cancel d) as [ct|] eqn:Hct; [|discriminate].
+      destruct (tstate_eqb new TDraining) eqn:Hnd; [discriminate|].
       destruct (_ && _) eqn:Hcond; [|discriminate]. intros _. right.
       apply andb_prop in Hcond. destruct Hcond as [Ht _]. apply Nat.eqb_eq in Ht.
-      split; [reflexivity|]. split; [discriminate|]. exists orig, new. rewrite Ht. reflexivity.
+      split; [reflexivity|]. split; [discriminate|]. exists orig, new. rewrite Ht. split; [reflexivity|].
+      intros En. rewrite En in Hnd. discriminate Hnd.
     + destruct (nget (drains st) (goid (e_by e))) as [d0|] eqn:Hd0.
-      * destruct (d_cancel d0); [|discriminate]. destruct (_ && _); [|discriminate].
+      * destruct (d_cancel d0); [|discriminate]. destruct (tstate_eqb _ _) eqn:Hnd; [discriminate|]. destruct (_ && _); [|discriminate].
         destruct (notify st d0 (e_t e)) as [cs|]; [|discriminate]. inv_some.
         left. exists d. split; [cbn [drains upd_drains]; rewrite nget_ndel_other; [exact Hd|intros E; apply Ng; symmetry; exact E]|].
         apply dkeep_refl. intros E; contradiction.
@@ -995,9 +997,10 @@ Definition no_stateset_by (g : nat) (tr : trace) : Prop :=
   forall e', In e' tr -> goid (e_by e') = g -> forall t o n, e_k e' <> KStateSet t o n.
 
 (** the Drain call of [g] open in [s] is still open after [tr] — or [tr] contains its end:
-    the first state-set by [g], on the call's target, after its "cancel the rest" *)
+    the first state-set by [g], on the call's target, after its "cancel the rest", and it
+    sets a state other than "draining" (a restore, not a mark) *)
 Definition ended_in (g t : nat) (need_cancel : Prop) (tr : trace) : Prop :=
-  exists q1 eE q2 o n, tr = q1 ++ eE :: q2 /\ goid (e_by eE) = g /\ e_k eE = KStateSet t o n /\
+  exists q1 eE q2 o n, tr = q1 ++ eE :: q2 /\ goid (e_by eE) = g /\ e_k eE = KStateSet t o n /\ n <> TDraining /\
     no_stateset_by g q1 /\
     (need_cancel -> exists eC, In eC q1 /\ goid (e_by eC) = g /\ e_k eC = KDrainCancelRest t).
 
@@ -1009,15 +1012,16 @@ Proof.
   revert s d; induction tr as [|e tr IH]; intros s d; cbn [run].
   - intros E Hd; injection E as <-. left. exists d. repeat split. exact Hd.
   - destruct (step_gen p s e) as [s1|] eqn:E; [|discriminate]. intros R Hd.
-    destruct (tdrain_fwd _ _ _ _ _ _ E Hd) as [(d1 & Hd1 & Ho & Ht & Hc & Hns)|(Hg & Hc & o & n & Hk)].
-    + destruct (IH _ _ R Hd1) as [(d' & Hd' & Ho' & Ht')|(q1 & eE & q2 & o & n & -> & Hg & Hk & Hno & Hcr)].
+    destruct (tdrain_fwd _ _ _ _ _ _ E Hd) as [(d1 & Hd1 & Ho & Ht & Hc & Hns)|(Hg & Hc & o & n & Hk & Hnn)].
+    + destruct (IH _ _ R Hd1) as [(d' & Hd' & Ho' & Ht')|(q1 & eE & q2 & o & n & -> & Hg & Hk & Hnn & Hno & Hcr)].
       * left. exists d'. split; [exact Hd'|]. split; congruence.
-      * right. exists (e :: q1), eE, q2, o, n. split; [reflexivity|]. split; [exact Hg|]. split; [congruence|]. split.
+      * right. exists (e :: q1), eE, q2, o, n. split; [reflexivity|]. split; [exact Hg|]. split; [congruence|].
+        split; [exact Hnn|]. split.
         -- intros e' [<-|Hin]; [exact Hns|exact (Hno _ Hin)].
         -- intros Hnone. destruct (d_cancel d1) as [ct|] eqn:Hc1.
            ++ destruct (Hc Hnone) as [Hge Hke]; [discriminate|]. exists e. split; [left; reflexivity|]. split; assumption.
            ++ destruct (Hcr eq_refl) as (eC & Hin & HgC & HkC). exists eC. split; [right; exact Hin|]. split; [exact HgC|congruence].
-    + right. exists [], e, tr, o, n. split; [reflexivity|]. split; [exact Hg|]. split; [exact Hk|]. split.
+    + right. exists [], e, tr, o, n. split; [reflexivity|]. split; [exact Hg|]. split; [exact Hk|]. split; [exact Hnn|]. split.
       * intros e' [].
       * intros Hnone; contradiction.
 Qed.
@@ -1065,8 +1069,9 @@ Proof.
     assert (Hyes : existsb (fun o => Nat.eqb (fst o) c && snd o) (begin_owners sB t (e_t eB) timeout) = true).
     { apply existsb_exists. exists (c, true). split; [exact Hown|]. cbn [fst snd]. rewrite Nat.eqb_refl. reflexivity. }
     rewrite Hyes in Hno. discriminate.
-  - cbn [d_t d_cancel] in Hend. destruct Hend as (q1 & eE & q2 & o & n & E & Hg & Hk & Hno & Hcr).
-    exists q1, eE, q2, o, n. repeat split; try assumption. intros _. exact (Hcr eq_refl).
+  - cbn [d_t d_cancel] in Hend. destruct Hend as (q1 & eE & q2 & o & n & E & Hg & Hk & Hnn & Hno & Hcr).
+    exists q1, eE, q2, o, n. split; [exact E|]. split; [exact Hg|]. split; [exact Hk|]. split; [exact Hnn|].
+    split; [exact Hno|]. intros _. exact (Hcr eq_refl).
 Qed.
 
 Lemma begin_owners_single s t now timeout c :
@@ -1084,7 +1089,7 @@ Lemma joint_settled_gen p pre eR post st sf c r p1 eB p2 sB t orig timeout :
   e_k eB = KDrainBegin t orig timeout -> orig <> TDraining ->
   In (c, true) (begin_owners sB t (e_t eB) timeout) ->
   exists q1 eE q2 o n fs x d sn,
-    p2 = q1 ++ eE :: q2 /\ goid (e_by eE) = goid (e_by eB) /\ e_k eE = KStateSet t o n /\
+    p2 = q1 ++ eE :: q2 /\ goid (e_by eE) = goid (e_by eB) /\ e_k eE = KStateSet t o n /\ n <> TDraining /\
     no_stateset_by (goid (e_by eB)) q1 /\
     run M5full.step M5full.init (p1 ++ eB :: q1) = Some fs /\
     nget (M5full.targets fs) t = Some x /\ nget (M5full.t_drains x) (goid (e_by eB)) = Some d /\
@@ -1096,7 +1101,7 @@ Lemma joint_settled_gen p pre eR post st sf c r p1 eB p2 sB t orig timeout :
 Proof.
   intros Hrt Hrf HR Epre RB HB Ho Hown.
   destruct (owned_drain_ended_gen _ _ _ _ _ _ _ _ _ _ _ _ _ _ Hrt HR Epre RB HB Ho Hown)
-    as (q1 & eE & q2 & o & n & Ep2 & HgE & HkE & Hno & Hcr).
+    as (q1 & eE & q2 & o & n & Ep2 & HgE & HkE & HnE & Hno & Hcr).
   destruct (Hcr I) as (eC & HinC & HgC & HkC).
   exists q1, eE, q2, o, n.
   (* the run of the request-level view up to the end event, and on to the return *)
@@ -1203,14 +1208,15 @@ Lemma owned_drain_ended pre eR post s c r p1 eB p2 sB t orig timeout :
   pre = p1 ++ eB :: p2 -> run step init p1 = Some sB ->
   e_k eB = KDrainBegin t orig timeout -> orig <> TDraining ->
   candidates sB t (e_t eB) timeout = [c] -> certain sB t c = true ->
-  exists q1 eE q2 o n, p2 = q1 ++ eE :: q2 /\ goid (e_by eE) = goid (e_by eB) /\ e_k eE = KStateSet t o n /\
+  exists q1 eE q2 o n, p2 = q1 ++ eE :: q2 /\ goid (e_by eE) = goid (e_by eB) /\ e_k eE = KStateSet t o n /\ n <> TDraining /\
     (forall e', In e' q1 -> goid (e_by e') = goid (e_by eB) -> forall t' o' n', e_k e' <> KStateSet t' o' n') /\
     (exists eC, In eC q1 /\ goid (e_by eC) = goid (e_by eB) /\ e_k eC = KDrainCancelRest t).
 Proof.
   intros Hrun HR Epre RB HB Ho Hcand Hcert.
   destruct (owned_drain_ended_gen false _ _ _ _ _ _ _ _ _ _ _ _ _ Hrun HR Epre RB HB Ho (begin_owners_single _ _ _ _ _ Hcand Hcert))
-    as (q1 & eE & q2 & o & n & E & Hg & Hk & Hno & Hcr).
-  exists q1, eE, q2, o, n. repeat split; try assumption. exact (Hcr I).
+    as (q1 & eE & q2 & o & n & E & Hg & Hk & Hnn & Hno & Hcr).
+  exists q1, eE, q2, o, n. split; [exact E|]. split; [exact Hg|]. split; [exact Hk|]. split; [exact Hnn|].
+  split; [exact Hno|]. exact (Hcr I).
 Qed.
 
 (** pause / stop: the command is the only candidate — that suffices *)
@@ -1220,7 +1226,7 @@ Lemma pause_stop_drain_ended pre eR post s c r eI k name p1 eB p2 sB t orig time
   In eI p1 -> e_k eI = KIssue c k name -> is_pause_stop k = true ->
   e_k eB = KDrainBegin t orig timeout -> orig <> TDraining ->
   candidates sB t (e_t eB) timeout = [c] ->
-  exists q1 eE q2 o n, p2 = q1 ++ eE :: q2 /\ goid (e_by eE) = goid (e_by eB) /\ e_k eE = KStateSet t o n /\
+  exists q1 eE q2 o n, p2 = q1 ++ eE :: q2 /\ goid (e_by eE) = goid (e_by eB) /\ e_k eE = KStateSet t o n /\ n <> TDraining /\
     (forall e', In e' q1 -> goid (e_by e') = goid (e_by eB) -> forall t' o' n', e_k e' <> KStateSet t' o' n') /\
     (exists eC, In eC q1 /\ goid (e_by eC) = goid (e_by eB) /\ e_k eC = KDrainCancelRest t).
 Proof.
@@ -1239,7 +1245,7 @@ Lemma joint_settled pre eR post st sf c r p1 eB p2 sB t orig timeout :
   e_k eB = KDrainBegin t orig timeout -> orig <> TDraining ->
   candidates sB t (e_t eB) timeout = [c] -> certain sB t c = true ->
   exists q1 eE q2 o n fs x d sn,
-    p2 = q1 ++ eE :: q2 /\ goid (e_by eE) = goid (e_by eB) /\ e_k eE = KStateSet t o n /\
+    p2 = q1 ++ eE :: q2 /\ goid (e_by eE) = goid (e_by eB) /\ e_k eE = KStateSet t o n /\ n <> TDraining /\
     (forall e', In e' q1 -> goid (e_by e') = goid (e_by eB) -> forall t' o' n', e_k e' <> KStateSet t' o' n') /\
     run M5full.step M5full.init (p1 ++ eB :: q1) = Some fs /\
     nget (M5full.targets fs) t = Some x /\ nget (M5full.t_drains x) (goid (e_by eB)) = Some d /\
@@ -1268,7 +1274,7 @@ Lemma deploy_return_drains_done pre eR post s c eP dt drt fa eS svc ro lb old eN
         run step init (p1 ++ eI :: m1) = Some sD /\
         nmem c (candidates sD t (e_t eD) drt) = true /\ certain sD t c = true /\
         (orig <> TDraining -> candidates sD t (e_t eD) drt = [c] ->
-         exists q1 eE q2 o n, m2 = q1 ++ eE :: q2 /\ goid (e_by eE) = goid (e_by eD) /\ e_k eE = KStateSet t o n /\
+         exists q1 eE q2 o n, m2 = q1 ++ eE :: q2 /\ goid (e_by eE) = goid (e_by eD) /\ e_k eE = KStateSet t o n /\ n <> TDraining /\
            (forall e', In e' q1 -> goid (e_by e') = goid (e_by eD) -> forall t' o' n', e_k e' <> KStateSet t' o' n') /\
            (exists eC, In eC q1 /\ goid (e_by eC) = goid (e_by eD) /\ e_k eC = KDrainCancelRest t)).
 Proof.
